@@ -297,6 +297,109 @@ pub fn check_ring(c: u64, fine: &[V3], worst_window: &Mutex<f64>) -> Vec<Viol> {
     out
 }
 
+
+/// Option histories: all sequences of length 3 over the alphabet {cell x, cell y} x {closed, open} x
+/// segments in {1, 2, 3, 7, 64, default} (24 symbols, 13 824 sequences), each on one fresh thread. Every
+/// ring must be the ring that the same request yields as the first call of a fresh thread: same
+/// number of points, the same physical points within 1e-9 deg, and (closed) first point repeated.
+/// A renderer that toggles `closed_ring` or the subdivision for one cell, or alternates two cells,
+/// produces exactly such sequences; a single call per option combination never does.
+const OPT_SEGS: [Option<i32>; 6] = [Some(1), Some(2), Some(3), Some(7), Some(64), None];
+type Ring = Result<Vec<(f64, f64)>, String>;
+fn ring_same(got: &Ring, cold: &Ring) -> Option<String> {
+    match (got, cold) {
+        (Ok(g), Ok(c)) => {
+            if g.len() != c.len() {
+                return Some(format!("{} points instead of {}", g.len(), c.len()));
+            }
+            for (i, (p, q)) in g.iter().zip(c.iter()).enumerate() {
+                if !(p.0.is_finite() && p.1.is_finite()) {
+                    return Some(format!("point {} is not finite", i));
+                }
+                let d = rg::ang(rg::ll_to_vec(p.0, p.1), rg::ll_to_vec(q.0, q.1)) / rg::DEG;
+                if !(d <= 1e-9) {
+                    return Some(format!("point {} is {:.3e} deg away from where the same request puts it on a fresh thread", i, d));
+                }
+            }
+            None
+        }
+        (Err(_), Err(_)) => None,
+        (Ok(_), Err(e)) => Some(format!("succeeds although the same request fails on a fresh thread ({})", e)),
+        (Err(e), Ok(_)) => Some(format!("fails ({}) although the same request succeeds on a fresh thread", e)),
+    }
+}
+fn opt_of(k: usize) -> (usize, bool, Option<i32>) {
+    (k / 12, (k % 12) / 6 == 0, OPT_SEGS[k % 6])
+}
+pub enum OptMode {
+    All,
+    Seq([usize; 3]),
+    Upto(usize),
+}
+pub fn option_histories(x: u64, y: u64, mode: OptMode) -> (u64, Vec<Viol>) {
+    let cells = [x, y];
+    let cold: Vec<Ring> = (0..24)
+        .map(|k| {
+            let (w, closed, seg) = opt_of(k);
+            let c = cells[w];
+            std::thread::spawn(move || subj::boundary(c, closed, seg)).join().unwrap_or_else(|_| Err("thread died".into()))
+        })
+        .collect();
+    let mut out = Vec::new();
+    // closed rings repeat their first point
+    for k in 0..24 {
+        let (w, closed, seg) = opt_of(k);
+        if let (true, Ok(r)) = (closed, &cold[k]) {
+            // (the world cell has no ring: its empty answer is part of the histories but carries no closure claim)
+            if r.len() >= 2 && (r[0].0.to_bits() != r[r.len() - 1].0.to_bits() || r[0].1.to_bits() != r[r.len() - 1].1.to_bits()) {
+                out.push(viol("C11/closure", "closed ring does not repeat its first point".into(), json!({"kind": "ring", "id": subj::hex(cells[w]), "closed": true, "segments": seg})));
+            }
+        }
+    }
+    let describe = |s: &[usize]| -> Value { Value::Array(s.iter().map(|&k| { let (w, closed, seg) = opt_of(k); json!({"id": subj::hex(cells[w]), "closed": closed, "segments": seg}) }).collect()) };
+    // the requests of all 13 824 sequences one after the other on ONE fresh thread (every window of three
+    // consecutive requests is one of the sequences; whatever came before is part of the history as well)
+    let all: Vec<usize> = (0..24).flat_map(|a| (0..24).flat_map(move |b| (0..24).flat_map(move |c| [a, b, c]))).collect();
+    let run: Vec<usize> = match mode {
+        OptMode::All => all,
+        OptMode::Seq(s) => s.to_vec(),
+        OptMode::Upto(n) => all.into_iter().take(n).collect(),
+    };
+    let cold_ref = &cold;
+    let run_ref = &run;
+    let first_bad: Option<(usize, String)> = std::thread::scope(|sc| {
+        sc.spawn(move || {
+            for (i, &k) in run_ref.iter().enumerate() {
+                let (w, closed, seg) = opt_of(k);
+                let got = subj::boundary(cells[w], closed, seg);
+                if let Some(why) = ring_same(&got, &cold_ref[k]) {
+                    return Some((i, why));
+                }
+            }
+            None
+        })
+        .join()
+        .unwrap_or(Some((0, "the thread making the requests died".into())))
+    });
+    let n = (run.len() / 3) as u64;
+    if let Some((i, why)) = first_bad {
+        // shortest form first: the last three requests alone on a fresh thread
+        let lo = i.saturating_sub(2);
+        let win: Vec<usize> = run[lo..=i].to_vec();
+        let again = if win.len() == 3 && !matches!(mode, OptMode::Seq(_)) { option_histories(x, y, OptMode::Seq([win[0], win[1], win[2]])).1 } else { vec![] };
+        if let Some(v) = again.into_iter().find(|v| v.class == "C11/ring-depends-on-previous-requests") {
+            out.push(v);
+        } else {
+            let case = match mode {
+                OptMode::Seq(s) => json!({"kind": "option_history", "x": subj::hex(x), "y": subj::hex(y), "seq": s.to_vec()}),
+                _ => json!({"kind": "option_history", "x": subj::hex(x), "y": subj::hex(y), "upto": i + 1}),
+            };
+            out.push(viol("C11/ring-depends-on-previous-requests", format!("request #{} of a sequence of requests on one thread (the last three: {}): {}", i + 1, describe(&win), why), case));
+        }
+    }
+    (n, out)
+}
+
 pub fn run_c11(tier: &str) -> Report {
     let mut rep = Report::new("exploration");
     let rmax = if tier == "quick" { 4 } else { 7 };
@@ -434,6 +537,34 @@ pub fn run_c11(tier: &str) -> Report {
         ring_pairs += n;
         rep.sink.extend(vs);
     }
+    // option histories (see `option_histories`)
+    {
+        let mut pairs: Vec<(u64, u64)> = Vec::new();
+        let b = rc::all_cells(0);
+        let q = rc::all_cells(1);
+        pairs.push((b[0], b[9])); // the two polar base cells
+        pairs.push((q[7], b[3])); // a quintant (3 corners) and a base cell
+        pairs.push((0, q[31])); // the world cell and a quintant
+        for (k, (lon, lat, r)) in [(179.99, 10.0, 3), (12.3, 45.6, 5), (-93.0, 89.9, 7), (87.0, -89.99, 14), (51.0, 26.0, 9), (-57.0, -26.6, 22), (0.0, 0.0, 29), (100.0, -40.0, 12)].into_iter().enumerate() {
+            if let Ok(c) = subj::lookup(lon, lat, r) {
+                // the cell with a sibling, with its parent, or with a far-away cell of another resolution
+                let other = match k % 3 {
+                    0 => rc::children(rc::parent(c).unwrap()).into_iter().find(|&s| s != c).unwrap_or(c),
+                    1 => rc::parent(c).unwrap(),
+                    _ => subj::lookup(-lon, -lat * 0.5, (r + 3).min(29)).unwrap_or(c),
+                };
+                pairs.push((c, other));
+            }
+        }
+        let pairs: Vec<(u64, u64)> = if tier == "quick" { pairs.into_iter().step_by(2).collect() } else { pairs };
+        let res: Vec<(u64, Vec<Viol>)> = pairs.par_iter().map(|&(x, y)| option_histories(x, y, OptMode::All)).collect();
+        let mut n = 0u64;
+        for (k, v) in res {
+            n += k;
+            rep.sink.extend(v);
+        }
+        rep.set("option_histories", json!({"cell_pairs": pairs.len(), "sequences_of_3_requests": n, "alphabet": "2 cells x closed/open x segments in {1,2,3,7,64,default}"}));
+    }
     rep.set("ring_pairs_on_one_thread", json!(ring_pairs));
     rep.set("cells_drawn_right_after_being_located", json!(located));
     rep.set("evaluations", json!(cells.len() as u64 * 12 + located));
@@ -554,6 +685,17 @@ pub fn replay(prop: &str, case: &Value) -> Vec<Viol> {
         })
         .join()
         .unwrap_or_default();
+    }
+    if prop == "C11" && case["kind"] == "option_history" {
+        let hx = |k: &str| u64::from_str_radix(case[k].as_str().unwrap(), 16).unwrap();
+        let sq: Vec<usize> = case["seq"].as_array().map(|a| a.iter().filter_map(|v| v.as_u64().map(|x| x as usize)).collect()).unwrap_or_default();
+        if let Some(n) = case["upto"].as_u64() {
+            return option_histories(hx("x"), hx("y"), OptMode::Upto(n as usize)).1;
+        }
+        if sq.len() != 3 {
+            return vec![];
+        }
+        return option_histories(hx("x"), hx("y"), OptMode::Seq([sq[0], sq[1], sq[2]])).1;
     }
     if prop == "C11" && case["kind"] == "located" {
         let (lon, lat, r) = (case["lon"].as_f64().unwrap(), case["lat"].as_f64().unwrap(), case["res"].as_i64().unwrap() as i32);
